@@ -186,6 +186,9 @@ func c10TeardownRest(p *Prog, ls *Lockset, r *Report) {
 // deviceAddressOf: v is &DeviceAddressType{Device: <found>.Address()}.
 func deviceAddressOf(v ssa.Value, found *ssa.Call) bool {
 	v = canonValue(v)
+	if _, isPar := v.(*ssa.Parameter); isPar {
+		v = canonValue(substParam(v)) // handed to an extracted helper
+	}
 	al, ok := v.(*ssa.Alloc)
 	if !ok || al.Referrers() == nil || found == nil {
 		return false
